@@ -90,7 +90,21 @@ func (g *Gen) genRoundTripHistory() {
 		g.genFineRoundTrip(sg, exact || r.Bool(40))
 		return
 	}
-	if r.Bool(25) {
+	if r.Bool(12) {
+		// a dense-family source holding a few far-apart bins (the encoder then prefers the index-delta layout)
+		// with fractional weights; in half of the cases the weights add up to the number of bins, as integer
+		// unit weights would (seeded change C06e tested the total instead of the bins)
+		sg.line("K 1 1 %s%s", []string{"dense", "low 64", "high 64", "low 1024"}[r.Intn(4)], x)
+		shapes := [][]float64{{0.5, 1.5}, {0.25, 0.25, 2.5}, {0.75, 1.25}, {0.5, 0.5, 0.5, 2.5}, {1.5, 2.5}, {0.5, 3}}
+		ws := shapes[r.Intn(len(shapes))]
+		m := sg.m
+		i0 := sg.center - sg.span
+		for j, w := range ws {
+			i := i0 + j*(2*sg.span)/len(ws) + r.Range(0, 2)
+			sg.add(1, (m.LowerBound(i)+m.LowerBound(i+1))/2, w)
+		}
+		g.stats["far-apart-fractional-bins"]++
+	} else if r.Bool(25) {
 		sg.line("K 1 1 pag%s", x)
 		sg.fillSketch(1, r.Range(1, 40), 100) // unit weights: buffered entries, encoded as index deltas
 	} else {
@@ -434,6 +448,19 @@ func (g *Gen) genTruncationHistory() {
 		unitPct = 100
 	}
 	sg.fillSketch(1, r.Range(1, 25), unitPct)
+	crafted := exact && r.Bool(50)
+	if crafted {
+		// statistics whose little-endian bytes start like a well-formed block (04 02 = a zero-count block):
+		// a decoder that loses the end-of-input error inside a float64 payload then "succeeds" on the left-over
+		// bytes (seeded change C08e)
+		lo := []uint64{0x0204, 0x020400, 0x0204, 0x0104}[r.Intn(4)]
+		for _, hi := range []uint64{0x3FF0000000000000, 0x40F0000000000000, 0xBFF0000000000000} {
+			if r.Bool(70) {
+				sg.add(1, math.Float64frombits(hi|lo), 1)
+			}
+		}
+		g.stats["crafted-statistics"]++
+	}
 	omit := r.Bool(30)
 	bs, ok := sg.bytesOf(1, omit)
 	if !ok {
@@ -444,6 +471,17 @@ func (g *Gen) genTruncationHistory() {
 		prov = "1"
 	}
 	doc, _ := docParse(bs)
+	if exact {
+		// the documented cross-variant pairing: the plain decoder on the encoding of an exact-summary sketch, the
+		// mapping supplied by the caller; EVERY cut of the leading statistics blocks
+		for k := 0; k <= len(bs) && k <= 40; k++ {
+			if sg.dec(9, "1", 1, []string{"sparse", "dense", "pag"}[r.Intn(3)], false, bs[:k]) == "ok" {
+				sg.ensureValues(9)
+				sg.obs(9)
+			}
+			g.stats["cuts:plain-decoder-on-exact"]++
+		}
+	}
 	isBoundary := map[int]bool{}
 	for _, b := range doc.boundary {
 		isBoundary[b] = true
